@@ -23,6 +23,7 @@ DECOS = {
     "staticmethod": ["@staticmethod"], "classmethod": ["@classmethod"], "abstractmethod": ["@abc.abstractmethod"],
     "cache": ["@functools.cache"], "lru_cache": ["@functools.lru_cache(maxsize=None)"], "unknown": ["@deco"],
     "propabstract": ["@property", "@abc.abstractmethod"], "overload": ["@overload"],
+    "asyncstatic": ["@staticmethod"], "asyncabstract": ["@abc.abstractmethod"], "asynccache": ["@functools.cache"],
 }
 
 
@@ -96,8 +97,8 @@ def render(prog: list, variant: int = 0, mode: str = "visit") -> Rendered:
                 decos = ["@typing.overload"]
             out.extend(ind + dl for dl in decos)
             info["defline"] = len(out) + 1
-            kw = "async def" if x == "async" else "def"
-            args = ("self, value" if x == "setter" else "self") if inside_class and x != "staticmethod" else ("value" if x == "setter" else "")
+            kw = "async def" if x.startswith("async") else "def"
+            args = ("self, value" if x == "setter" else "self") if inside_class and x not in ("staticmethod", "asyncstatic") else ("value" if x == "setter" else "")
             if x == "classmethod":
                 args = "cls"
             body_doc = docstyle
